@@ -507,11 +507,48 @@ def run(rep, ctx):
         ix_ = finisher_param(g_)
         if ix_ is not None:
             fin_by_id[g_.id] = ix_
+
+    def record_writer_param(g):
+        """index of the line-buffer parameter if g writes exactly one complete record into it: its body is the scope of one top-level
+        writer constructed on the parameter, the parameter is used for nothing else, and nothing is appended"""
+        if g is None or g.body is None:
+            return None
+        for i_, p_ in enumerate(g.params):
+            if "MemoryWriter" not in (p_.get("ct") or p_.get("t") or "") or "&" not in (p_.get("ct") or p_.get("t") or ""):
+                continue
+            uses = [u for u in g.walk() if u["k"] == "DeclRefExpr" and u.get("declId") == p_["declId"]]
+            if len(uses) != 1:
+                continue
+            par = next((a for a in g.ancestors(uses[0]) if a["k"] not in ("ImplicitCastExpr", "ParenExpr", "MaterializeTemporaryExpr")), None)
+            if par is None or par["k"] != "CXXConstructExpr" or par.get("callee") != JW + "::MiniJSONWriter":
+                continue
+            v = next((a for a in g.ancestors(uses[0]) if a["k"] == "VarDecl"), None)
+            if v is None or not is_jw_type(v.get("ct") or v.get("t")):
+                continue
+            ds, scope = stmt_in_compound(g, v)
+            if scope is None or scope["i"] != g.body["i"]:
+                continue
+            if any(c["k"] == "CXXMemberCallExpr" and c.get("callee") in APPENDS for c in g.walk()):
+                continue
+            did = v["declId"]
+            direct = [s_ for s_ in kids(scope) if any(x["k"] == "CXXOperatorCallExpr" and x.get("op") == "[]" and strip(call_args(x)[0]).get("declId") == did for x in walk(s_))
+                      and s_["k"] not in ("IfStmt", "ForStmt", "WhileStmt", "CXXForRangeStmt", "SwitchStmt", "DoStmt")]
+            if direct:
+                return i_
+        return None
+    recw_by_id = {}
+    for g_ in funcs:
+        ix_ = record_writer_param(g_)
+        if ix_ is not None:
+            recw_by_id[g_.id] = ix_
     for f in emitters:
         key = sname(f)
         probs = []
         if f.id in fin_by_id:
             l1.ok("%s|%s" % (key, "finisher"), short_loc(f.loc), "helper that terminates a record with \"\\n\" and appends it; its callers are analysed")
+            continue
+        if f.id in recw_by_id:
+            l1.ok("%s|%s" % (key, "record-writer"), short_loc(f.loc), "helper that writes one complete top-level dictionary into the buffer it is given; its callers are analysed")
             continue
         fin_calls = [c for c in f.walk() if c["k"] in ("CXXMemberCallExpr", "CallExpr") and c.get("calleeId") in fin_by_id]
         apps = [c for c in f.walk() if c["k"] == "CXXMemberCallExpr" and c.get("callee") in APPENDS]
@@ -530,6 +567,7 @@ def run(rep, ctx):
         for b in sorted(bufs):
             uses = decl_uses(f, b)
             nl_stmts, ctor_uses, app_uses = [], [], []
+            block_calls = []
             for u in uses:
                 par = [a for a in f.ancestors(u)]
                 p1 = next((a for a in par if a["k"] not in ("ImplicitCastExpr", "ParenExpr", "MaterializeTemporaryExpr")), None)
@@ -552,6 +590,10 @@ def run(rep, ctx):
                     continue
                 if p1 is not None and p1["k"] in ("CXXMemberCallExpr", "CallExpr") and p1.get("calleeId") in fin_by_id:
                     nl_stmts.append(p1)          # the finisher writes the newline and appends
+                    continue
+                if p1 is not None and p1["k"] in ("CXXMemberCallExpr", "CallExpr") and p1.get("calleeId") in recw_by_id and \
+                        strip(call_args(p1)[recw_by_id[p1["calleeId"]]])["i"] == u["i"]:
+                    block_calls.append(p1)       # the helper's body is the writer's scope
                     continue
                 probs.append("line buffer used outside the writer at %s: %s" % (short_loc(u.get("l")), render(p1)[:60] if p1 else "?"))
             # pairing: each top-level writer's scope is immediately followed by a newline write
@@ -583,13 +625,23 @@ def run(rep, ctx):
                 if not direct:
                     probs.append("the writer declared at %s has no unconditional key: an empty record is not an object"
                                  % short_loc(v.get("l")))
+            for bc in block_calls:
+                st, outer = stmt_in_compound(f, bc)
+                sib = kids(outer) if outer is not None else []
+                idx = next((i for i, x in enumerate(sib) if st is not None and x["i"] == st["i"]), None)
+                nxt = sib[idx + 1] if idx is not None and idx + 1 < len(sib) else None
+                nxt_call = strip(nxt) if nxt is not None else None
+                if nxt_call is None or nxt_call["i"] not in {c["i"] for c in nl_stmts}:
+                    probs.append("the record written by the helper at %s is not directly followed by write(\"\\n\")" % short_loc(bc.get("l")))
+                else:
+                    nl_used.add(nxt_call["i"])
             for c in nl_stmts:
                 if c["i"] not in nl_used:
                     probs.append("write(\"\\n\") at %s does not follow a writer block" % short_loc(c.get("l")))
             for A in app_uses:
                 if not any(f.cfg.dominates(c, A) for c in nl_stmts):
                     probs.append("Append at %s is not preceded by a terminated record" % short_loc(A.get("l")))
-            if not ctor_uses:
+            if not ctor_uses and not block_calls:
                 probs.append("buffer %s is appended without a JSON writer" % b.split("#")[0])
         if jws and not bufs:
             probs.append("no buffer appended")
